@@ -217,7 +217,7 @@ func run(raw json.RawMessage) (hx.Case, error) {
 func gen(r *hx.Rand, tier string) []json.RawMessage {
 	nsel, ne2e, nops := 150, 70, 60
 	if tier == "thorough" {
-		nsel, ne2e, nops = 2500, 1200, 120
+		nsel, ne2e, nops = 1500, 500, 100
 	}
 	var out []json.RawMessage
 	add := func(in input) { out = append(out, hx.J(in)) }
